@@ -229,9 +229,23 @@ impl Tm {
     }
 }
 
+/// 0: neutral names `$p<n>` / `$b<n>`; 1: names that look like the crate's own fresh slots, far above the thread's fresh counter
+/// and far apart (`$f<2000000 + 100000 n>`, bound `$f<50000000 + 100000 k>`): legal user names that `Slot::fresh` has to stay clear of
+pub static NAMING: std::sync::atomic::AtomicU8 = std::sync::atomic::AtomicU8::new(0);
+const F_FREE: u32 = 2_000_000;
+const F_BOUND: u32 = 50_000_000;
+const F_STEP: u32 = 100_000;
+
 pub fn pname(n: Name) -> String {
+    let fresh_like = NAMING.load(std::sync::atomic::Ordering::Relaxed) == 1;
     if n >= BOUND {
-        format!("$b{}", n - BOUND)
+        if fresh_like && n - BOUND < 2000 {
+            format!("$f{}", F_BOUND + F_STEP * (n - BOUND))
+        } else {
+            format!("$b{}", n - BOUND)
+        }
+    } else if fresh_like && n < 400 {
+        format!("$f{}", F_FREE + F_STEP * n)
     } else {
         format!("$p{}", n)
     }
@@ -394,6 +408,16 @@ impl Interner {
     pub fn get(&mut self, s: &str) -> Name {
         if let Some(n) = self.map.get(s) {
             return *n;
+        }
+        // fresh-like pool names (NAMING = 1) map back to their pool index
+        if let Some(r) = s.strip_prefix('f') {
+            if let Ok(k) = r.parse::<u32>() {
+                if k >= F_FREE && k < F_FREE + 400 * F_STEP && (k - F_FREE) % F_STEP == 0 {
+                    let n = (k - F_FREE) / F_STEP;
+                    self.map.insert(s.to_string(), n);
+                    return n;
+                }
+            }
         }
         // pool names "p<k>" map to k
         if let Some(r) = s.strip_prefix('p') {
